@@ -140,13 +140,19 @@ impl Drop for SubSocket {
 
 impl SubSocket {
     pub async fn subscribe(&mut self, subscription: &str) -> ZmqResult<()> {
-        self.backend.subs.lock().insert(subscription.to_string());
+        // The subscriptions are a set: peers are told only when it changes, so that peers
+        // that joined at different times keep the same view of it.
+        if !self.backend.subs.lock().insert(subscription.to_string()) {
+            return Ok(());
+        }
         self.process_subs(subscription, SubBackendMsgType::SUBSCRIBE)
             .await
     }
 
     pub async fn unsubscribe(&mut self, subscription: &str) -> ZmqResult<()> {
-        self.backend.subs.lock().remove(subscription);
+        if !self.backend.subs.lock().remove(subscription) {
+            return Ok(());
+        }
         self.process_subs(subscription, SubBackendMsgType::UNSUBSCRIBE)
             .await
     }
